@@ -287,6 +287,17 @@ def run(ctx):
             src = {o.call.name for o in origins(c.body, c.args[1], taint=True) if o.kind == "call"} if m == "remove" and len(c.args) > 1 else set()
             r4.check("pgcat::messages::Parse::get_name" in src, "refused-batch-forgets-by-client-name", "the refused batch's names are removed by the name the client gave them (Parse::get_name of the buffered message)",
                      "forget_buffered_prepared_statements matches on the rewritten PGCAT_n name: an earlier, acknowledged statement of the client with the same text is forgotten together with the refused batch - its next Bind is answered with `does not exist` and the client is disconnected", c.where())
+        if m == "remove" and len(c.args) > 1:
+            # statements and portals are two name spaces: Close('P', name) closes a portal, the statement of the same name stays the client's
+            kv = set()
+            ko = origins(c.body, c.args[1], taint=True, visited=kv)
+            from_close = any("pgcat::messages::Close" in c.body.locals[l]["ty"] for l in kv) or any(o.kind == "call" and o.call.name.startswith("pgcat::messages::Close::") for o in ko)
+            if from_close:
+                isT, _, _ = call_bool_edges(c.body, "pgcat::messages::Close::is_prepared_statement", switches_cache=switches(c.body))
+                wit = c.body.uncrossed_path([0], [c.block], edges=isT)
+                r4.check(bool(isT) and wit is None, "close-of-a-statement-only@%s" % c.body.name.replace("pgcat::client::", "").replace("::{closure#0}", ""), "a Close takes a statement's name away only where Close::is_prepared_statement() answered true",
+                         "a Close removes the client's statement of that name whatever it closes: after Close('P', \"a\") - closing the portal \"a\" - the prepared statement \"a\" is forgotten, its next Bind is answered with "
+                         "`prepared statement \"a\" does not exist` and the client is disconnected", c.where(), wit and c.body.describe_path(wit))
         if m in ("get", "contains_key", "get_mut") and c.body.name.startswith(ENSURE):
             # the batch is replayed at its Sync, after every message of it was read: a name that a later Close of the same batch took away is gone by then.
             # What a buffered Bind / Describe needs (the statement to ensure) has to be captured when it is read, not looked up again by name (D54)
